@@ -95,7 +95,9 @@ contract(T + ".add_stage", "C19", params={"stage": "obj:CascadeStage"}, raises=[
 contract(T + ".insert_stage", "C19", params={"stage": "obj:CascadeStage"}, raises=[], modifies=["self._stages"],
          ensures={"one-more-stage": "len(self._stages) == len(old(self)._stages) + 1 and result is self"})
 contract(T + ".remove_stage", "C19", raises=[], modifies=["self._stages"],
-         loops={"for (i, stage) in enumerate(self._stages)": {"invariant": ["len(self._stages) == len(old(self)._stages)"]}},
+         loops={"for (i, stage) in enumerate(self._stages)": {"invariant": ["len(self._stages) == len(old(self)._stages)"],
+                                                              "step": {"only-the-named-stage-is-removed": "(_exit == 'return') == (stage.name == name)"},
+                                                              "property_level": ["only-the-named-stage-is-removed"]}},
          ensures={"removes-at-most-one": "len(self._stages) == len(old(self)._stages) - (1 if result else 0)"})
 
 # the agent-based front end builds its stages here: a gate given for an agent stage must BE the gate of the stage that run() consults
